@@ -118,9 +118,24 @@ func runC35(rc *RC) {
 	var baseOps []op
 	if (kind == 1 || kind == 5) && !compactBase && rc.Pct(50) {
 		baseShape = 1 + rc.Draw(kind%5+1) // kind 1: 1 or 2; kind 5: 1
-		for n := rc.Range(1, 8); n > 0; n-- {
+		// a few features take most of the edits: several appended keys and a
+		// removal leave their tag lists with spare capacity
+		var focus []b6.FeatureID
+		for n := rc.Range(1, 2); n > 0; n-- {
+			if id, ok := g.anyExistingID(); ok {
+				focus = append(focus, id)
+			}
+		}
+		for n := rc.Range(2, 10); n > 0; n-- {
 			o := g.genTagOp()
-			if o.Kind == "addtag" && rc.Pct(50) {
+			if len(focus) > 0 && rc.Pct(70) {
+				o.ID = focus[rc.Draw(len(focus))]
+				if o.Kind == "addtag" && rc.Pct(70) {
+					g.valueCounter++
+					o.Key = fmt.Sprintf("base%d", g.valueCounter)
+				}
+			}
+			if o.Kind == "addtag" && rc.Pct(30) {
 				o.Key = []string{"#amenity", "#building", "note"}[rc.Draw(3)]
 			}
 			if g.specs[o.ID] != nil {
@@ -131,14 +146,25 @@ func runC35(rc *RC) {
 	}
 	rc.Knob("base-shape", baseShape)
 	var overlayOps []op
+	var hot []b6.FeatureID // features whose tags the overlay merges on every read
 	if kind == 1 || kind == 5 {
 		// plain keys added to base features: held as tag modifications and
 		// merged into the base feature's tags by every read
 		for n := rc.Range(0, 3); n > 0; n-- {
 			if id, ok := g.anyExistingID(); ok {
+				// prefer features the base edited in place, and keys the
+				// feature does not have yet (a pure addition)
+				if len(baseOps) > 0 && rc.Pct(70) {
+					id = baseOps[rc.Draw(len(baseOps))].ID
+				}
 				g.valueCounter++
-				o := op{Kind: "addtag", ID: id, Key: []string{"levels", "note", "name"}[rc.Draw(3)], Val: fmt.Sprintf("v%d", g.valueCounter)}
+				key := []string{"levels", "note", "name"}[rc.Draw(3)]
+				if rc.Pct(60) {
+					key = fmt.Sprintf("extra%d", g.valueCounter)
+				}
+				o := op{Kind: "addtag", ID: id, Key: key, Val: fmt.Sprintf("v%d", g.valueCounter)}
 				overlayOps = append(overlayOps, o)
+				hot = append(hot, id)
 				g.commit(o)
 			}
 		}
@@ -276,6 +302,9 @@ func runC35(rc *RC) {
 			switch rc.Pick(5, 3, 2, 3, 1) {
 			case 0:
 				q = c35Query{kind: "feature", id: ids[rc.Draw(len(ids))]}
+				if len(hot) > 0 && rc.Pct(40) {
+					q.id = hot[rc.Draw(len(hot))]
+				}
 				if rc.Pct(50) && len(plans[r]) > 0 {
 					q.id = plans[r][rc.Draw(len(plans[r]))].id // revisit: cache hit / re-decode after eviction
 					if !q.id.IsValid() {
